@@ -59,6 +59,18 @@ Proof. exact (fun ep em es_ ee ef c g es H => conj (slpp_write_entries_from_sour
 Theorem C10_read_names_from_source : forall p, kind_of p = kind_of_tbl slpp_read_targets p.
 Proof. exact slpp_read_names_from_source. Qed.
 
+From Peppi Require Import Gen.SlppReadSrc Proofs.SlppReadLayout.
+(* ---- the .slpp skip-frames branch, regenerated: an empty frame table of capacity 0, independent of the entry's bytes; and
+   read_arrow_frames accepts exactly one record batch, empty or not (so a zero-frame game reads back) ---- *)
+Theorem C10_slpp_skip_branch_from_source : forall dec_frames,
+  (exists v f, In (FbEmptyFrames 0%N v f) slpp_frames_when_skip) /\
+  (forall a ver d1 d2 c1 c2,
+     run_branch dec_frames slpp_frames_when_skip a ver d1 c1 fregs0 = run_branch dec_frames slpp_frames_when_skip a ver d2 c2 fregs0).
+Proof. exact frames_arm_skip_from_source. Qed.
+Theorem C10_one_batch_from_source : forall (A B : Type) (dec : A -> B) items b,
+  raf_tbl dec items = Ok b <-> (exists x xs, items = [SiChunk (x :: xs)] /\ b = dec x).
+Proof. exact (fun A B => @raf_ok_iff_from_source A B). Qed.
+
 Print Assumptions C10_skip_read.
 Print Assumptions C10_skip_equals_full.
 Print Assumptions C10_skip_result_writable.
@@ -66,3 +78,5 @@ Print Assumptions C10_nonvacuous.
 Print Assumptions C10_reader_from_source.
 Print Assumptions C10_written_entries_from_source.
 Print Assumptions C10_read_names_from_source.
+Print Assumptions C10_slpp_skip_branch_from_source.
+Print Assumptions C10_one_batch_from_source.
